@@ -61,6 +61,7 @@ let dispatch (t : Stdlib.String.t array) : Stdlib.String.t =
   | "frames" -> Streamops.frames t
   | "extract" -> Streamops.extract !profile_ref t
   | "inject" -> Streamops.inject !profile_ref t
+  | "genxml" -> Xmlops.genxml_op !profile_ref t
   | "gen" -> Genops.gen_op !profile_ref t
   | "edit" -> Editops.edit_op !profile_ref t
   | "export" -> Editops.export_op !profile_ref t
